@@ -409,7 +409,13 @@ impl<C: Suite> Sim<C> {
         }
         let np = scen.np();
         let mut key_stream = stream(scen.seed, scen.run, "keygen/key");
-        let split_key = Some(sc_random_nonzero::<C>(&mut key_stream));
+        let mut split_key = Some(sc_random_nonzero::<C>(&mut key_stream));
+        // a scenario may pin the key to be split (parity steering in C18)
+        if let Some(h) = scen.extra.get("split_key_hex").and_then(|v| v.as_str()) {
+            if let Some(k) = hex::decode(h).ok().and_then(|b| sc_from_bytes::<C>(&b)) {
+                split_key = Some(k);
+            }
+        }
         Ok(Sim {
             scen: scen.clone(),
             ids,
